@@ -352,7 +352,7 @@ import (
 //@   ensures[C17] err == nil ==> failed == old(failed)
 //@   ensures[C03] err == nil ==> seq(vmInput.CallerAddr) == ESDTSC()
 //@   ensures[C02,C03,C05] err == nil ==> onlyChanged(St, old(St), dst, Krole(tok))
-//@   ensures[C03,C15] err == nil && !readFailed && !e.set && rolesNoDup(old(St), dst, tok) ==> rolesNoDup(St, dst, tok) && forall(t, int, trigger(seq(vmInput.Arguments[t])), 1 <= t && t < len(vmInput.Arguments) ==> !hasRole(St, dst, tok, seq(vmInput.Arguments[t])))
+//@   ensures[C03,C15] err == nil && !readFailed && !e.set && rolesNoDup(old(St), dst, tok) ==> rolesNoDup(St, dst, tok) && forall(t, int, trigger(seq(vmInput.Arguments[1:][t])), 0 <= t && t < len(vmInput.Arguments) - 1 ==> !hasRole(St, dst, tok, seq(vmInput.Arguments[1:][t])))
 //@   ensures[C03] err == nil && !readFailed && e.set ==> llen(dRoles(St[dst][Krole(tok)])) == ite(len(old(St)[dst][Krole(tok)]) == 0, 0, llen(dRoles(old(St)[dst][Krole(tok)]))) + len(vmInput.Arguments) - 1 && forall(i, int, 1 <= i && i < len(vmInput.Arguments) ==> lnth(dRoles(St[dst][Krole(tok)]), llen(dRoles(St[dst][Krole(tok)])) - len(vmInput.Arguments) + i) == seq(vmInput.Arguments[i]))
 //@   modifies St, failed, readFailed
 
@@ -548,6 +548,7 @@ import (
 //@   requires e != nil && !isNil(e.marshalizer) && !isNil(e.pauseHandler) && !isNil(e.payableHandler)
 //@   requires !isNil(userAccount) && addr(userAccount) == seq(dstAddress) && esdtDataToTransfer != nil && esdtDataToTransfer.Value != nil && bigval(esdtDataToTransfer.Value) > 0
 //@   requires WFvalues(St) && isTokKey(seq(esdtTokenKey))
+//@   requires[C13] cap(esdtTokenKey) == len(esdtTokenKey) || private(esdtTokenKey)
 //@   ensures[C17] err == nil ==> failed == old(failed)
 //@   ensures old(readFailed) ==> readFailed
 //@   ensures[C09] err == nil && mustVerifyPayable ==> payable(dstA)
@@ -607,9 +608,9 @@ import (
 //@   ensures[C06] err == nil && old(vmOutput.OutputAccounts) == nil ==> onlyRcpt(vmOutput, dstA) && vmOutput.GasRemaining + fwdGas(vmOutput, dstA) <= old(vmOutput.GasRemaining)
 //@   ensures[C10] err == nil && shardOf(dstA) != selfShard ==> has(vmOutput.OutputAccounts, dstA) && wfunc(seq(vmOutput.OutputAccounts[dstA].OutputTransfers[0].Data)) == "MultiESDTNFTTransfer" && warg(seq(vmOutput.OutputAccounts[dstA].OutputTransfers[0].Data), 0) == be(nL)
 //@   ensures[C10] err == nil && shardOf(dstA) != selfShard ==> wcount(seq(vmOutput.OutputAccounts[dstA].OutputTransfers[0].Data)) == 1 + 3 * nL + ite(len(vmInput.Arguments) > 3 * nL + 2, len(vmInput.Arguments) - (3 * nL + 2), 0)
-//@   ensures[C10] err == nil && shardOf(dstA) != selfShard ==> forall(j, int, 0 <= j && j < nL ==> warg(seq(vmOutput.OutputAccounts[dstA].OutputTransfers[0].Data), 1 + 3 * j) == seq(listTokenIDs[j]))
-//@   ensures[C10] err == nil && shardOf(dstA) != selfShard ==> forall(j, int, 0 <= j && j < nL && listESDTTransferData[j].TokenMetaData != nil ==> warg(seq(vmOutput.OutputAccounts[dstA].OutputTransfers[0].Data), 2 + 3 * j) == be(listESDTTransferData[j].TokenMetaData.Nonce) && warg(seq(vmOutput.OutputAccounts[dstA].OutputTransfers[0].Data), 3 + 3 * j) == tokEnc(listESDTTransferData[j]))
-//@   ensures[C10] err == nil && shardOf(dstA) != selfShard ==> forall(j, int, 0 <= j && j < nL && listESDTTransferData[j].TokenMetaData == nil ==> warg(seq(vmOutput.OutputAccounts[dstA].OutputTransfers[0].Data), 2 + 3 * j) == "\x00" && warg(seq(vmOutput.OutputAccounts[dstA].OutputTransfers[0].Data), 3 + 3 * j) == be(iabs(bigval(listESDTTransferData[j].Value))))
+//@   ensures[C10] err == nil && shardOf(dstA) != selfShard ==> forall(j, int, trigger(warg(seq(vmOutput.OutputAccounts[dstA].OutputTransfers[0].Data), 1 + 3 * j)), 0 <= j && j < nL ==> warg(seq(vmOutput.OutputAccounts[dstA].OutputTransfers[0].Data), 1 + 3 * j) == seq(listTokenIDs[j]))
+//@   ensures[C10] err == nil && shardOf(dstA) != selfShard ==> forall(j, int, trigger(warg(seq(vmOutput.OutputAccounts[dstA].OutputTransfers[0].Data), 3 + 3 * j)), 0 <= j && j < nL && listESDTTransferData[j].TokenMetaData != nil ==> warg(seq(vmOutput.OutputAccounts[dstA].OutputTransfers[0].Data), 2 + 3 * j) == be(listESDTTransferData[j].TokenMetaData.Nonce) && warg(seq(vmOutput.OutputAccounts[dstA].OutputTransfers[0].Data), 3 + 3 * j) == tokEnc(listESDTTransferData[j]))
+//@   ensures[C10] err == nil && shardOf(dstA) != selfShard ==> forall(j, int, trigger(warg(seq(vmOutput.OutputAccounts[dstA].OutputTransfers[0].Data), 3 + 3 * j)), 0 <= j && j < nL && listESDTTransferData[j].TokenMetaData == nil ==> warg(seq(vmOutput.OutputAccounts[dstA].OutputTransfers[0].Data), 2 + 3 * j) == "\x00" && warg(seq(vmOutput.OutputAccounts[dstA].OutputTransfers[0].Data), 3 + 3 * j) == be(iabs(bigval(listESDTTransferData[j].Value))))
 //@   modifies vmOutput.GasRemaining, vmOutput.OutputAccounts, failed, newmap(vmOutput.OutputAccounts), new(vmcommon.OutputAccount), new([]vmcommon.OutputTransfer), new(big.Int), new([][]byte)
 
 //@ func (e *esdtNFTMultiTransfer) processESDTNFTMultiTransferOnSenderShard
@@ -626,6 +627,10 @@ import (
 //@   loop 0 invariant forall(j, int, 0 <= j && j < i ==> wfItem(listEsdtData[j]))
 //@   loop 0 invariant vmOutput.GasRemaining == vmInput.GasProvided - numOfTransfers * e.funcGasCost && vmOutput.OutputAccounts == nil && vmOutput.ReturnCode == 0 && len(vmOutput.Logs) == numOfTransfers
 //@   loop 0 invariant i > 0 && verifyPayable && !isNil(acntDst) ==> payable(dstA)
+//@   loop 0 invariant isNil(acntDst) ==> forall(j, int, 0 <= j && j < i ==> bigval(listEsdtData[j].Value) == beval(seq(vmInput.Arguments[4 + 3 * j])) && seq(listTokenID[j]) == seq(vmInput.Arguments[2 + 3 * j]))
+//@   ensures[C10] err == nil && shardOf(dstA) != selfShard ==> has(out.OutputAccounts, dstA)
+//@   ensures[C10] err == nil && shardOf(dstA) != selfShard ==> forall(j, int, trigger(warg(seq(out.OutputAccounts[dstA].OutputTransfers[0].Data), 1 + 3 * j)), 0 <= j && j < nT ==> warg(seq(out.OutputAccounts[dstA].OutputTransfers[0].Data), 1 + 3 * j) == seq(vmInput.Arguments[2 + 3 * j]))
+//@   ensures[C10] err == nil && shardOf(dstA) != selfShard ==> forall(j, int, trigger(warg(seq(out.OutputAccounts[dstA].OutputTransfers[0].Data), 3 + 3 * j)), 0 <= j && j < nT ==> warg(seq(out.OutputAccounts[dstA].OutputTransfers[0].Data), 3 + 3 * j) == be(beval(seq(vmInput.Arguments[4 + 3 * j]))) || dVal(warg(seq(out.OutputAccounts[dstA].OutputTransfers[0].Data), 3 + 3 * j)) == beval(seq(vmInput.Arguments[4 + 3 * j])))
 //@   ensures[C11] shape(out, err)
 //@   ensures[C17] err == nil ==> failed == old(failed)
 //@   ensures[C06] err == nil ==> onlyRcpt(out, dstA) && out.GasRemaining + fwdGas(out, dstA) <= vmInput.GasProvided
@@ -659,6 +664,7 @@ import (
 //@   ensures[C03] err == nil && !senderSide ==> isNil(acntSnd)
 //@   ensures[C06] err == nil && !senderSide ==> onlyRcpt(out, rcv) && out.GasRemaining + fwdGas(out, rcv) <= vmInput.GasProvided
 //@   ensures[C06] err == nil && senderSide ==> onlyRcpt(out, seq(vmInput.Arguments[0])) && out.GasRemaining + fwdGas(out, seq(vmInput.Arguments[0])) <= vmInput.GasProvided
+//@   ensures[C10] err == nil && senderSide && shardOf(seq(vmInput.Arguments[0])) != selfShard ==> has(out.OutputAccounts, seq(vmInput.Arguments[0])) && forall(j, int, trigger(warg(seq(out.OutputAccounts[seq(vmInput.Arguments[0])].OutputTransfers[0].Data), 3 + 3 * j)), 0 <= j && j < beval(seq(vmInput.Arguments[1])) % 18446744073709551616 ==> warg(seq(out.OutputAccounts[seq(vmInput.Arguments[0])].OutputTransfers[0].Data), 1 + 3 * j) == seq(vmInput.Arguments[2 + 3 * j]) && (warg(seq(out.OutputAccounts[seq(vmInput.Arguments[0])].OutputTransfers[0].Data), 3 + 3 * j) == be(beval(seq(vmInput.Arguments[4 + 3 * j]))) || dVal(warg(seq(out.OutputAccounts[seq(vmInput.Arguments[0])].OutputTransfers[0].Data), 3 + 3 * j)) == beval(seq(vmInput.Arguments[4 + 3 * j]))))
 //@   ensures[C09] err == nil && !senderSide && St != old(St) && mustVerify(vmInput, 3 * nD + 1) ==> payable(rcv)
 //@   ensures[C09] err == nil && senderSide ==> shardOf(seq(vmInput.Arguments[0])) != 4294967295 && seq(vmInput.Arguments[0]) != snd && len(vmInput.Arguments[0]) == len(vmInput.CallerAddr)
 //@   ensures[C02,C05] forall(a, addr, k, bseq, St[a][k] != old(St)[a][k] ==> ((senderSide && (a == snd || a == seq(vmInput.Arguments[0]))) || (!senderSide && a == rcv)) && isTokKey(k))
